@@ -1,10 +1,13 @@
 """C02 — work and memory are bounded by real input size, never by declared sizes.
 
 proof  : XmpProps.C02 (mixer segment loop ≤ 2·ticksize iterations and ≤ ticksize samples per voice and tick for
-         every behaviour of the voice logic; depacker growth rule; generated list of depacker ceilings)
+         every behaviour of the voice logic; depacker growth rule; generated list of depacker ceilings; work bounds
+         and output ceilings of every modelled depacker loop — XmpModel/WorkBound.lean, XmpProofs/WorkBound*.lean;
+         IFF chunk walker progress; core-loader loop totals)
 tie    : translator tools/gen_depack_limits.py (allocation sites + ceiling tokens per depacker, value of
          LIBXMP_DEPACK_LIMIT / MAX_SAMPLE_SIZE) regenerated on every run; kernel-call counts observed by
-         harness/c01_window.c (samples per call ≤ tick size)
+         harness/c01_window.c (samples per call ≤ tick size); IFF walker: harness/c02_iff.c (iff.c with recording
+         hio wrappers) vs lean/Drv/C02.lean on generated chunked files (tools/c02_iff.py)
 search : harness/c01_fuzz.c in `res` mode on an uninstrumented -O1 build with a wrapped allocator: CPU time,
          peak live heap and the biggest single request per case, on mutated corpus files (length/count fields
          inflated, truncations, splices) and on generated decompression bombs (gzip, zip, xz, bzip2)
@@ -22,31 +25,64 @@ import shutil
 import synthmods
 import liars
 import c02_gens
+import c02_iff
 
 LEVEL = "proof"
 MANIFEST = dict(
     category="proof",
-    text="PARTIAL. Proved in Lean 4 (XmpProps.C02) for every behaviour of the unmodelled voice/sample logic: the softmixer's per-voice "
-         "segment loop runs at most 2*ticksize iterations and mixes at most ticksize samples per voice and tick; a depacker growth "
-         "request above the ceiling is refused; every depacker in the capped class references a ceiling derived from "
-         "LIBXMP_DEPACK_LIMIT (list regenerated from the sources on every run, value checked = 512 MiB). CPU time and memory of the "
-         "~110 parsers and the entropy decoders are MEASURED, not proved: per case CPU seconds, peak live heap and largest single "
-         "allocation request on mutated corpus inputs and generated decompression bombs, against limits proportional to the bytes "
-         "supplied plus the library's fixed ceilings.",
-    note="Trusted: Lean kernel, model XmpModel/MixLoop.lean, translator, allocator wrapper, thresholds (cpu <= 10 s + 2 us/byte; peak heap "
-         "<= 48 MiB + 64 x bytes and single request <= 8 MiB + 64 x bytes for plain modules, <= 2.2 x LIBXMP_DEPACK_LIMIT + 256 MiB for packed inputs). Scan / set_position / "
-         "tick-size / sample-allocation bounds are proved under C18, C17, C16, C20 and re-exported in C02's vocabulary "
-         "(Xmp.C02.C02_next_order_terminates, C02_play_frame_returns, C02_set_position_terminates, C02_scan_terminates, "
-         "C02_ticksize_bound, C02_sample_alloc_le), so this check's build and axiom audit cover their whole import closure; their "
-         "model-to-code ties remain those of the owning checks (C16/C17/C18/C20).",
-    technique="Lean 4 proof of loop/growth bounds + generated ceiling list + measured CPU/heap search",
+    text="PARTIAL. Proved in Lean 4 (XmpProps.C02), for every input byte string: (1) every loop of the modelled depackers is a "
+         "counted step function proved equal to its C08/C09 model, every continuing iteration makes progress, so the loop ends by itself "
+         "within bytes/k + 1 iterations and the model's fuel never decides: ARC/Spark entry walk (k=2), ArcFS entry table (36, count "
+         "backed by bytes), LZX entries (31), xz VLI (<= 9 bytes) / block loop (8) / Index record count, zip EOCD search window "
+         "(<= 69650 bytes), zip64 extra walk (4), central directory loop (46 per record whatever count is declared), gzip header "
+         "fields, compress(1) LZW code loop (<= 2*(8n/9)+1), PowerPacker count groups and main loop (>= 2 output bytes per iteration), "
+         "LHA skip_sfx / extended headers / null decoder / member walk (22), MMCMP tables, RLE90; (2) output ceilings: arc_unpack is never "
+         "asked for more than the ceiling (ARC, ArcFS), LZX merged totals, LHA and MMCMP outputs <= LIBXMP_DEPACK_LIMIT (the generated "
+         "constant), PowerPacker output = its 24-bit length field, RLE90 output = the sized buffer; (3) the IFF chunk walker "
+         "(libxmp_iff_load: all flags, id sizes, registered loaders, declared lengths up to 2^32-1) moves forward by a whole chunk header "
+         "per iteration, hence <= size/(id_size+4) + 1 loop tests; the UMX name-table walk (read_typname) advances >= 5 bytes per "
+         "iteration inside the file whatever index/count is declared; the scan's per-row visit counter saturates (a visited row never "
+         "looks unvisited again under any number of row delays); (4) the four core loaders' loop trip totals for validated header counts "
+         "are below one fixed ceiling and sample loads consume/allocate in proportion to the bytes present; (5) the softmixer's segment loop "
+         "<= 2*ticksize iterations, next_order / play_frame / set_position / scan terminate, tick size bound, depacker growth rule and the "
+         "generated list of ceiling sites (now including uncompress.c). CPU time and memory of the ~110 format parsers' bodies and of the "
+         "entropy decoders (inflate, LZMA2, bzip2 BWT/Huffman, LZX/LHA/ARC bit coders, MMCMP bit coder) are MEASURED, not proved: per case "
+         "CPU seconds, peak live heap and largest single request on mutated corpus inputs, declared-size liars and generated decompression "
+         "bombs (gzip, xz, bzip2, compress code-stream bombs), against limits proportional to the bytes supplied plus the fixed ceilings.",
+    note="Trusted: Lean kernel; the C08/C09/C03/C20 models the work theorems are stated over (their ties to the C are the correspondences of "
+         "those checks: the step functions of XmpModel/WorkBound.lean are proved equal to them, no new trust); model XmpModel/IffWalk.lean "
+         "(tied here: harness/c02_iff.c compiles iff.c with recording hio wrappers and compares return value, number of loop tests and every "
+         "chunk's position/id/loader size/seek target with lean/Drv/C02.lean on 6000 generated chunked files per quick run, memory and FILE "
+         "back-ends; LP64 `long` arithmetic assumed, files below 2 GiB); model XmpModel/UmxWalk.lean (tied here: harness/c02_umx.c calls the "
+         "real read_typname on 3000 generated name tables per quick run, both back-ends: return value, iteration count, name); "
+         "model XmpModel/MixLoop.lean; translator; allocator wrapper; thresholds "
+         "(cpu <= 10 s + 2 us/byte; peak heap <= 48 MiB + 64 x bytes and single request <= 8 MiB + 64 x bytes for plain modules, <= 2.2 x "
+         "LIBXMP_DEPACK_LIMIT + 256 MiB for packed inputs). Not modelled: the LZW string-table walk bound (prefix < code invariant), the output "
+         "ceiling of decrunch_compress (model Lzw has no growth; ceiling covered by the generated site list and the code-stream bombs), xz "
+         "XZ_MAX_OUTPUT, miniz allocation caps, per-iteration cost of loader bodies. Scan / set_position / tick-size / sample-allocation bounds "
+         "are proved under C18, C17, C16, C20 and re-exported (Xmp.C02.C02_next_order_terminates, C02_play_frame_returns, "
+         "C02_set_position_terminates, C02_scan_terminates, C02_ticksize_bound, C02_sample_alloc_le); their model-to-code ties remain those "
+         "of the owning checks.",
+    technique="Lean 4 proofs of loop progress / work bounds over the executable depacker and IFF models + generated ceiling list + "
+              "model-vs-real correspondence for the IFF walker + measured CPU/heap search",
     design_ref="DESIGN.md section 4 C02",
 )
 REQUIRED = ["Xmp.MixLoop.C02_mixer_iterations", "Xmp.MixLoop.C02_mixer_samples", "Xmp.MixLoop.C02_grow_capped",
             "Xmp.MixLoop.C02_depack_limit_sites", "Xmp.MixLoop.C02_depack_limit_value",
             # termination / size theorems re-exported from their owners (C16, C17, C18, C20) in C02's vocabulary
             "Xmp.C02.C02_next_order_terminates", "Xmp.C02.C02_play_frame_returns", "Xmp.C02.C02_set_position_terminates",
-            "Xmp.C02.C02_scan_terminates", "Xmp.C02.C02_ticksize_bound", "Xmp.C02.C02_sample_alloc_le"]
+            "Xmp.C02.C02_scan_terminates", "Xmp.C02.C02_ticksize_bound", "Xmp.C02.C02_sample_alloc_le",
+            # decoders and container walkers as bounded-work functions (counted step functions proved equal to the C08/C09 models)
+            "Xmp.C02.C02_depack_limit_models", "Xmp.C02.C02_arc_work", "Xmp.C02.C02_arc_ceiling", "Xmp.C02.C02_arcfs_work",
+            "Xmp.C02.C02_lzx_work", "Xmp.C02.C02_xz_work", "Xmp.C02.C02_zip_work", "Xmp.C02.C02_gzip_header",
+            "Xmp.C02.C02_lzw_work", "Xmp.C02.C02_pp_work", "Xmp.C02.C02_lha_work", "Xmp.C02.C02_lha_ceiling",
+            "Xmp.C02.C02_mmcmp_bounds", "Xmp.C02.C02_rle90_len",
+            # core loaders: loop trip totals are one fixed ceiling, sample reads bounded by bytes present (corollary of C03 / C20)
+            "Xmp.C02.C02_core_loader_work",
+            # IFF chunk walker (own model XmpModel/IffWalk.lean, tied by harness/c02_iff.c + lean/Drv/C02.lean)
+            "Xmp.C02.C02_iff_progress", "Xmp.C02.C02_iff_terminates",
+            # UMX name-table walk (XmpModel/UmxWalk.lean, tied by harness/c02_umx.c) and the scan's saturating visit counter
+            "Xmp.C02.C02_umx_names_terminate", "Xmp.C02.C02_scan_visit_counter_saturates"]
 
 PACKED_EXT = (".gz", ".bz2", ".xz", ".zip", ".lha", ".lzh", ".z", ".arc", ".lzx", ".mmcmp", ".pp", ".xpk", ".sqsh", ".itz",
               ".mdz", ".s3z", ".xmz", ".j2b", ".muse", ".s404", ".arcfs", ".spark", ".zst", ".7z", ".rar", ".mo3")
@@ -118,7 +154,37 @@ def make_bombs(dirname, quick):
         with open(p, "wb") as f:
             f.write(b"\x1f\x8b\x08\x00\0\0\0\0\0\x03" + body + struct.pack("<II", zlib.crc32(head) & 0xffffffff, 0xffffffff))
     out.append(p)
+    # compress(1) code-stream bombs (no payload is compressed: the codes are written directly, code k expands to k bytes):
+    # 122 657 bytes standing for 2 130 706 560, and 400 more copies of the longest code (past INT_MAX) — the two
+    # witnesses of the missing ceiling in decrunch_compress (fixed in /repo d19762f); a 450 MB one that still unpacks
+    for ncodes, extra, tag in ((65279, 0, "2030M"), (65280, 400, "2055M"), (30000, 0, "450M")):
+        p = os.path.join(dirname, "bomb-%s.Z" % tag)
+        if not os.path.exists(p):
+            with open(p + ".tmp", "wb") as f:
+                f.write(c02_gens.compress_code_bomb(ncodes, extra)[0])
+            os.rename(p + ".tmp", p)
+        out.append(p)
+    # MMCMP whose 65535 block-table entries all name the same stored 4 MiB block (fixed in /repo 353a4b5: total output budget)
+    p = os.path.join(dirname, "rewrite-4M.mmcmp")
+    if not os.path.exists(p):
+        with open(p + ".tmp", "wb") as f:
+            f.write(c02_gens.mmcmp_rewrite_bomb(4 << 20))
+        os.rename(p + ".tmp", p)
+    out.append(p)
     return out
+
+
+def run_intact_group(args):
+    """files of one size, unmodified, through test + load (+ start, one frame) from memory and from callbacks (the harness's
+    `prefix` mode at prefix length = file length); returns (rc, cpu seconds of the child, stderr tail, files)"""
+    import resource
+    exe, size, scratch, files = args
+    before = resource.getrusage(resource.RUSAGE_CHILDREN)
+    rc, out, err = vlib.run_exe(exe, ["1", str(size), str(size), scratch, "prefix"] + files, timeout=900)
+    after = resource.getrusage(resource.RUSAGE_CHILDREN)
+    cpu = (after.ru_utime + after.ru_stime) - (before.ru_utime + before.ru_stime)
+    last = re.findall(r"^prefixfile (\S+)$", out.decode("latin-1"), re.M)
+    return rc, cpu, err[-600:], files, (last[-1] if last else "")
 
 
 def run_res_shard(args):
@@ -148,8 +214,12 @@ def run_res_shard(args):
 def run(ck):
     info = gen_depack_limits.generate()
     ck.note("generated", info)
-    ck.proofs(["XmpProps.C02"], required=REQUIRED)
+    ck.proofs(["XmpProps.C02"], required=REQUIRED, drivers=["drv_c02"])
     quick = ck.tier == "quick"
+    # ---- IFF chunk walker: real libxmp_iff_load (both stream back-ends) vs the Lean model, and its progress oracle ----
+    if ck.lean_ok:
+        c02_iff.run(ck, quick)
+        c02_iff.run_umx(ck, quick)
     limit = info["limit"]
     scratch = os.path.join(vlib.OUT, "c02")
     os.makedirs(scratch, exist_ok=True)
@@ -170,6 +240,38 @@ def run(ck):
         ck.cov["traces_validated_against_impl"] += int(st.group(1))
         if int(st.group(4)):
             ck.violation("mixer:samples>ticksize", {"stat": st.group(0)}, "a kernel call was asked for more samples than the tick size")
+
+    # ---- walker-stress inputs, unmodified, through the memory and callback entry points ---------------------
+    # Unreal packages with boundary counts / lengths / offsets (negative name-length bytes, type-name index 2^31-2 ...)
+    # and IT modules whose row delays on one row add up to the visit counter's limits: every one must come back quickly
+    ws_dir = os.path.join(scratch, "walk-%d" % ck.seed)
+    shutil.rmtree(ws_dir, ignore_errors=True)
+    os.makedirs(ws_dir, exist_ok=True)
+    by_size = {}
+    stress = c02_gens.umx_stress_set(random.Random(ck.seed * 613 + 1)) + c02_gens.it_rowdelay_set()
+    for name, data in stress:
+        path = os.path.join(ws_dir, name)
+        with open(path, "wb") as fh:
+            fh.write(data)
+        by_size.setdefault(len(data), []).append(path)
+    ck.note("walker_stress_files", len(stress))
+    groups = [(exe, size, scratch, fl[i:i + 24]) for size, fl in sorted(by_size.items()) for i in range(0, len(fl), 24)]
+    worst_intact = 0.0
+    for rc, cpu, err, fl, last in vlib.pmap(run_intact_group, groups):
+        worst_intact = max(worst_intact, cpu)
+        for f in fl:
+            ck.count("intact:" + os.path.basename(f), nontrivial=True)
+        lim = 10.0 + 0.05 * len(fl)
+        if rc != 0 or cpu > lim:
+            bad = last or fl[0]
+            hang = rc in (-14, 142, -999)
+            ck.violation(("timeout@" if hang or rc == 0 else "crash@") + os.path.basename(bad),
+                         {"kind": "intact", "files": fl, "size": os.path.getsize(fl[0]), "last": bad, "stderr": err},
+                         "%s (unmodified, %d bytes): test/load from memory or callbacks %s (rc=%s, %.1f s CPU for %d files)" % (
+                             os.path.basename(bad), os.path.getsize(fl[0]),
+                             "did not return within the budget" if hang else "exceeded the CPU limit" if rc == 0 else "died",
+                             rc, cpu, len(fl)))
+    ck.note("walker_stress_worst_group_cpu", round(worst_intact, 3))
 
     # ---- measured search ------------------------------------------------------------------------
     files = [f for f in vlib.corpus_files() if os.path.getsize(f) <= (300000 if quick else 3000000)]
@@ -252,6 +354,16 @@ def run(ck):
 
 def replay(ck, rp):
     r = rp["replay"]
+    if r.get("kind") == "iff":
+        return c02_iff.replay(ck, r)
+    if r.get("kind") == "umx":
+        return c02_iff.replay_umx(ck, r)
+    if r.get("kind") == "intact":
+        wraps = ["-Wl,--wrap=malloc", "-Wl,--wrap=calloc", "-Wl,--wrap=realloc", "-Wl,--wrap=free"]
+        exe = vlib.build_harness("c02_res", ["c01_fuzz.c"], variant="plain", defines=["WRAP_ALLOC"], extra=wraps)
+        rc, cpu, err, fl, last = run_intact_group((exe, r["size"], os.path.join(vlib.OUT, "c02"), [r["last"]]))
+        print("rc=%s cpu=%.2f s last=%s\n%s" % (rc, cpu, last, err))
+        return 0 if rc == 0 and cpu <= 10.0 else 1
     wraps = ["-Wl,--wrap=malloc", "-Wl,--wrap=calloc", "-Wl,--wrap=realloc", "-Wl,--wrap=free"]
     exe = vlib.build_harness("c02_res", ["c01_fuzz.c"], variant="plain", defines=["WRAP_ALLOC"], extra=wraps)
     rc, out, err = vlib.run_exe(exe, r["args"] + r["files"], timeout=600)
